@@ -4,6 +4,7 @@ package c11
 import (
 	"encoding/json"
 	"fmt"
+	"github.com/thushan/olla/verifharness/hx"
 	"io"
 	"net/http"
 	"regexp"
@@ -28,6 +29,9 @@ func TestMain(m *testing.M) { ev.Main(m, rec) }
 type EP struct {
 	Type    string `json:"type"`
 	Healthy bool   `json:"healthy"`
+	// Dead: listed healthy, but nothing listens at its URL any more (it died since its last
+	// health check): the first attempt on it fails with a connection error and Olla fails over
+	Dead bool `json:"dead,omitempty"`
 }
 
 type Case struct {
@@ -89,10 +93,11 @@ func compatible(prefix, epType string) bool {
 // ---------------------------------------------------------------------------
 
 type rigT struct {
-	s   *stack.Stack
-	be  []*backend.Rec
-	mu  sync.Mutex
-	seq int
+	s    *stack.Stack
+	be   []*backend.Rec
+	dead []string // URLs at which nothing listens
+	mu   sync.Mutex
+	seq  int
 }
 
 var (
@@ -113,6 +118,7 @@ func getRig(engine string) (*rigT, error) {
 			return nil, err
 		}
 		r.be = append(r.be, b)
+		r.dead = append(r.dead, fmt.Sprintf("http://127.0.0.1:%d", hx.FreePort()))
 	}
 	s, err := stack.Boot(stack.Options{Engine: engine, Balancer: "round-robin"})
 	if err != nil {
@@ -138,8 +144,12 @@ func (r *rigT) deploy(eps []EP) ([]string, error) {
 	var urls []string
 	for i, e := range eps {
 		r.be[i].Reset()
-		se = append(se, stack.Endpoint{Name: fmt.Sprintf("d%d-%d-%s", r.seq, i, e.Type), URL: r.be[i].URL(), Type: e.Type, Priority: 100})
-		urls = append(urls, r.be[i].URL())
+		u := r.be[i].URL()
+		if e.Dead {
+			u = r.dead[i]
+		}
+		se = append(se, stack.Endpoint{Name: fmt.Sprintf("d%d-%d-%s", r.seq, i, e.Type), URL: u, Type: e.Type, Priority: 100})
+		urls = append(urls, u)
 	}
 	if err := r.s.Reload(se); err != nil {
 		return nil, err
@@ -200,6 +210,13 @@ func runCase(c Case) []ev.Violation {
 
 	anyCompatHealthy, anyIncompatHealthy := false, false
 	for _, e := range c.EPs {
+		if e.Dead && e.Healthy {
+			rec.Class("deployment-with-dead-endpoint-listed-healthy")
+			if !compatible(c.Prefix, e.Type) {
+				anyIncompatHealthy = true
+			}
+			continue
+		}
 		if e.Healthy {
 			if compatible(c.Prefix, e.Type) {
 				anyCompatHealthy = true
@@ -272,7 +289,16 @@ func genCase(t *rapid.T) Case {
 		if rapid.IntRange(0, 3).Draw(t, "own") == 0 && len(owners[c.Prefix]) > 0 {
 			ty = owners[c.Prefix][0]
 		}
-		c.EPs = append(c.EPs, EP{Type: ty, Healthy: rapid.IntRange(0, 3).Draw(t, "healthy") > 0})
+		e := EP{Type: ty, Healthy: rapid.IntRange(0, 3).Draw(t, "healthy") > 0}
+		e.Dead = e.Healthy && rapid.IntRange(0, 3).Draw(t, "dead") == 0
+		c.EPs = append(c.EPs, e)
+	}
+	// a third of the cases: the fail-over topology - a dead and a live endpoint of the prefix's own
+	// type next to a live endpoint of some other type, in any order
+	if len(owners[c.Prefix]) > 0 && rapid.IntRange(0, 2).Draw(t, "failover") == 0 {
+		own := owners[c.Prefix][0]
+		eps := []EP{{Type: own, Healthy: true, Dead: true}, {Type: own, Healthy: true}, {Type: rapid.SampledFrom(types).Draw(t, "other"), Healthy: true}}
+		c.EPs = rapid.Permutation(eps).Draw(t, "order")
 	}
 	c.Path = rapid.SampledFrom(pathsFor(c.Prefix)).Draw(t, "path")
 	return c
@@ -289,7 +315,7 @@ func enumerate() {
 					for _, p := range paths {
 						n++
 						if n%rec.Shards() == rec.Shard() {
-							ev.Direct(rec, "route", Case{Engine: e, Prefix: pre, EPs: []EP{{t1, h1}}, Path: p, Method: "POST"}, runCase)
+							ev.Direct(rec, "route", Case{Engine: e, Prefix: pre, EPs: []EP{{Type: t1, Healthy: h1}}, Path: p, Method: "POST"}, runCase)
 						}
 					}
 					for _, t2 := range types[i:] {
@@ -304,7 +330,7 @@ func enumerate() {
 							if !rec.Thorough() && n%3 != 0 { // quick tier: a third of the pair table per run, all of it in thorough
 								continue
 							}
-							ev.Direct(rec, "route", Case{Engine: e, Prefix: pre, EPs: []EP{{t1, h1}, {t2, h2}}, Path: paths[n%2], Method: "POST"}, runCase)
+							ev.Direct(rec, "route", Case{Engine: e, Prefix: pre, EPs: []EP{{Type: t1, Healthy: h1}, {Type: t2, Healthy: h2}}, Path: paths[n%2], Method: "POST"}, runCase)
 						}
 					}
 				}
@@ -420,7 +446,7 @@ func genList(t *rapid.T) ListCase {
 func TestC11(t *testing.T) {
 	loadProfiles(t)
 	defer stopRigs()
-	rec.SetRule("prefixes and compatibility are read from the shipped YAML by the harness's own reader; deployments = endpoint type multisets (every shipped profile name + auto) x health; all deployments of size 1 and (quick: a third of / thorough: all) size-2 deployments are enumerated for every prefix and both engines, size<=3 deployments and provider-native paths are rapid-generated; typed recording backends tell which endpoint served. Model-listing routes under each prefix are checked against per-endpoint model sets. non-trivial = deployment containing >=1 healthy endpoint of an incompatible type; distinct by (engine, prefix, deployment, path)")
+	rec.SetRule("prefixes and compatibility are read from the shipped YAML by the harness's own reader; deployments = endpoint type multisets (every shipped profile name + auto) x health; all deployments of size 1 and (quick: a third of / thorough: all) size-2 deployments are enumerated for every prefix and both engines, size<=3 deployments and provider-native paths are rapid-generated, including endpoints that are listed healthy but refuse connections (so that the request fails over) and the fail-over topology {own type dead, own type live, other type live}; typed recording backends tell which endpoint served. Model-listing routes under each prefix are checked against per-endpoint model sets. non-trivial = deployment containing >=1 healthy endpoint of an incompatible type; distinct by (engine, prefix, deployment, path)")
 	rec.Assume("compatibility relation: type == profile owning the prefix, or auto; for the openai/openai-compatible prefixes every profile with api.openai_compatible: true")
 	if ev.Replay(t, rec, "route", runCase) || ev.Replay(t, rec, "listing", runList) {
 		return
